@@ -28,10 +28,18 @@ KINDS = ("p", "r", "s")            # run-step, run-steps, stream-steps
 
 
 # ------------------------------------------------------------------------------------------- real server
+GRID = {"start": 0.0, "dt": 1.0}       # the time grid of the session under test: time = start + index * dt
+
+
+def idx(t):
+    """grid index of a simulation time (the model counts steps)"""
+    return int(round((float(t) - GRID["start"]) / GRID["dt"]))
+
+
 def factory():
     import BPTK_Py
     from BPTK_Py import Model
-    m = Model(starttime=0.0, stoptime=50.0, dt=1.0, name="c18")
+    m = Model(starttime=GRID["start"], stoptime=GRID["start"] + 50.0 * GRID["dt"], dt=GRID["dt"], name="c18")
     stock, flow, const = m.stock("stock"), m.flow("flow"), m.constant("constant")
     stock.initial_value = 0.0
     stock.equation = flow
@@ -212,6 +220,10 @@ class RecDict(dict):
             lock_flag_access(True, v)
         dict.__setitem__(self, k, v)
 
+    def __deepcopy__(self, memo):                         # _get_instance_state copies the state for the external adapter
+        import copy
+        return {k: copy.deepcopy(dict.__getitem__(self, k), memo) for k in dict.keys(self)}
+
 
 class InjectedError(Exception):
     pass
@@ -233,6 +245,7 @@ class World:
         self.inst = self.app._instance_manager._instances[self.id]["instance"]
         self.client = c
         self.has_try_lock = hasattr(self.inst, "try_lock")
+        self.followups = True
         self.flag_attr = self._find_flag()               # None: the flag is session_state["lock"]; else the attribute's name
         self._instrument()
 
@@ -249,6 +262,7 @@ class World:
         cls.lock(inst)
         changed = [k for k, v in vars(inst).items() if isinstance(v, bool) and before.get(k) != v]
         on_state = bool(inst.session_state.get("lock"))
+        self.recorder_blind = bool(cls.is_locked(inst)) and not changed and not on_state   # the flag is somewhere else
         cls.unlock(inst)
         if changed and not on_state:
             return changed[0]
@@ -301,8 +315,8 @@ class World:
             inst.__dict__["_rec_" + name] = val
 
         runner = self.bmod.SdRunner
-        self._orig_sim = runner.run_scenario_step
-        orig = self._orig_sim
+        self._orig_sim = runner.run_scenario_step          # restored on close (may be the wrapper of another World)
+        orig = getattr(self._orig_sim, "_c18_orig", self._orig_sim)
 
         def run_scenario_step(rself, *a, **kw):
             tid = CTL.tid()
@@ -313,6 +327,7 @@ class World:
                 if CTL.fail.get(tid) == k:
                     raise InjectedError("injected simulation failure")
             return orig(rself, *a, **kw)
+        run_scenario_step._c18_orig = orig
         runner.run_scenario_step = run_scenario_step
 
     def close(self):
@@ -331,15 +346,31 @@ class World:
             r = self._begin()
         assert r.status_code == 200, r.data
         st = RecDict(self.inst.session_state)
-        dict.__setitem__(st, "stoptime", float(stop))
+        dict.__setitem__(st, "stoptime", GRID["start"] + float(stop) * GRID["dt"])
         self.inst.session_state = st
 
     def clock(self):
         st = self.inst.session_state
-        return -1 if st is None else int(round(dict.__getitem__(st, "step")))
+        return -1 if st is None else idx(dict.__getitem__(st, "step"))
 
     def locked(self):
         return bool(self.flag_raw())
+
+    def afterwards(self):
+        """what a client sees after the requests of a run have ended (observe_at of the property): what is_locked() answers,
+        the times in the session's results log, and a follow-up run-step"""
+        st = self.inst.session_state
+        o = {"is_locked_after": self.is_locked_now(), "logged": None, "followup": None}
+        if st is not None:
+            o["logged"] = sorted(idx(k) for k in dict.__getitem__(st, "results_log").keys())
+            self.nruns = getattr(self, "nruns", 0) + 1
+            if self.followups and (self.nruns % 5 == 0 or self.nruns < 40):      # every fifth run (and the probes at the start)
+                self.nfollow = getattr(self, "nfollow", 0) + 1
+                r = self.client.post(f"/{self.id}/run-step", json={"settings": {}})
+                o["followup"] = (r.status_code, r.data.decode()[:60])
+                if self.is_locked_now():
+                    self.flag_force(False)
+        return o
 
     def rewrap(self):
         """after a session request replaced session_state: record the new one as well"""
@@ -428,7 +459,7 @@ def time_of(obj):
     try:
         eqs = obj[SM][SC]
         k = next(iter(next(iter(eqs.values())).keys()))
-        return int(round(float(k)))
+        return idx(float(k))
     except Exception:
         return None
 
@@ -533,6 +564,7 @@ def execute(world, scn, mode, prefix=(), switches=None, chooser=None):
     rec = {"log": list(CTL.log), "decisions": list(CTL.decisions), "choices": list(CTL.choices),
            "out": [out[i] for i in range(n)], "clock": world.clock(), "lock": world.locked(), "lines": CTL.lines}
     CTL.reset(None, "off")
+    rec.update(world.afterwards())
     return rec
 
 
@@ -581,7 +613,7 @@ def canon_real(scn, rec, labels):
         else:
             st = f"http{o['status']}"
         ths.append((st, o["times"], o["msgs"]))
-    produced = [int(round(info)) - 1 for tid, lab, info, folded in rec["log"] if lab == "WS"]
+    produced = [idx(info) - 1 for tid, lab, info, folded in rec["log"] if lab == "WS"]
     return labels, ths, rec["clock"], rec["lock"], produced
 
 
@@ -666,7 +698,7 @@ def reference(scn, rec):
                     out.append((key, f"requests {busy + [tid]} are inside run_step at the same time"))
                 nsim[tid] = nsim.get(tid, 0) + 1
                 stepping[tid] = scn.fail.get(tid) != nsim[tid] - 1      # an injected failure ends run_step at once
-    produced = [int(round(info)) - 1 for tid, lab, info, folded in rec["log"] if lab == "WS"]
+    produced = [idx(info) - 1 for tid, lab, info, folded in rec["log"] if lab == "WS"]
     if len(set(produced)) != len(produced):
         dup = sorted({p for p in produced if produced.count(p) > 1})
         key = "run-step-without-lock" if unlocked_p and not any(k == "lock-check-then-act" for k, _ in out) else "lock-check-then-act"
@@ -714,6 +746,13 @@ def reference(scn, rec):
                f"request(s) {held}; then: ")
         out = out[:at] + [("refusal-releases-lock", why + t) if k in ("lock-check-then-act", "run-step-without-lock") else (k, t)
                           for k, t in out[at:]]
+    if rec.get("is_locked_after") and not rec["lock"]:
+        out.append(("lock-leak", "after all requests have ended the stored flag is free but is_locked() still answers True"))
+    if rec.get("followup") is not None and not rec["lock"] and rec["followup"][0] != 200:
+        out.append(("lock-leak", f"all requests have ended and the flag is free, yet a follow-up run-step is answered {rec['followup']}"))
+    if rec.get("logged") is not None and sorted(set(produced)) != rec["logged"] and \
+            not any(k in ("lock-check-then-act", "run-step-without-lock", "refusal-releases-lock") for k, _ in out):
+        out.append(("results-log-mismatch", f"times written by the requests {sorted(produced)} but the session's results log holds {rec['logged']}"))
     prim = [k for k, _ in out if k in ("refusal-releases-lock", "lock-check-then-act", "run-step-without-lock")]
     if prim:                       # consequences of an interleaving are reported under its cause
         out = [(prim[0] if k in ("non-consecutive", "clock-mismatch", "refused-but-stepped") else k, t) for k, t in out]
@@ -929,7 +968,7 @@ class StubInstance:
         self.take_after_reads = take_after_reads
         self._tas = None
         st = {k: dict.__getitem__(world.inst.session_state, k) for k in dict.keys(world.inst.session_state)}
-        st["stoptime"] = float(stop)
+        st["stoptime"] = GRID["start"] + float(stop) * GRID["dt"]
         st["settings_log"], st["results_log"] = {}, {}
         self.session_state = TraceDict(st, self)
         self._flag_attr = world.flag_attr
@@ -1007,6 +1046,19 @@ PROGRAM_PATHS = [
     ("stream_gone4", "s", 0, 1, {"gone": 4}),
     ("stream_gone5", "s", 0, 1, {"gone": 5}),
     ("stream_refused", "s", 0, 5, {"locked": True}),
+    # other body shapes the handlers distinguish (wave 7): the same programs …
+    ("runStep_noBody", "p", 0, 5, {"body": None}),
+    ("runStep_flat", "p", 0, 5, {"body": {"settings": {}, "flatResults": True}}),
+    ("runSteps2_flat", "r", 2, 5, {"body": {"numberSteps": 2, "settings": {}, "flatResults": True}}),
+    ("stream_noBody", "s", 0, 1, {"body": None}),
+    ("stream_flat", "s", 0, 1, {"body": {"settings": {}, "flatResults": True}}),
+    # … and bodies that fail validation: no step, nothing held afterwards (fact invalidRequestHoldsNothing)
+    ("runStep_noSettings", "p", 0, 5, {"body": {}, "invalid": True}),
+    ("runSteps_noBody", "r", 0, 5, {"body": None, "invalid": True}),
+    ("runSteps_noNumber", "r", 0, 5, {"body": {"settings": {}}, "invalid": True}),
+    ("runSteps_noSettings", "r", 0, 5, {"body": {"numberSteps": 2}, "invalid": True}),
+    ("runSteps_textNumber", "r", 0, 5, {"body": {"numberSteps": "2", "settings": {}}, "invalid": True}),
+    ("stream_noSettings", "s", 0, 1, {"body": {}, "invalid": True}),
 ]
 
 
@@ -1025,7 +1077,7 @@ def trace_program(world, kind, n, stop, opt):
         stub_cls = type("StubInstanceAttr", (StubInstance,), {world.flag_attr: property(fget, fset)})
     stub = stub_cls(world, stop, locked=opt.get("locked", False), take_after_reads=opt.get("take"))
     if "clock" in opt:
-        dict.__setitem__(stub.session_state, "step", float(opt["clock"]))
+        dict.__setitem__(stub.session_state, "step", GRID["start"] + float(opt["clock"]) * GRID["dt"])
     entry = world.app._instance_manager._instances[world.id]
     runner = world.bmod.SdRunner
     prev_sim = runner.run_scenario_step
@@ -1062,12 +1114,14 @@ def trace_program(world, kind, n, stop, opt):
     body = {"settings": {}}
     if kind == "r":
         body["numberSteps"] = n
+    if "body" in opt:
+        body = opt["body"]
     out = {"status": None, "chunks": 0, "exc": None, "close_error": None, "gone_line": None}
     real = entry["instance"]
     entry["instance"] = stub
     runner.run_scenario_step = run_scenario_step
     try:
-        with world.app.test_request_context(f"/{world.id}/{path}", method="POST", json=body):
+        with world.app.test_request_context(f"/{world.id}/{path}", method="POST", **({"json": body} if body is not None else {})):
             sys.settrace(tracer)
             try:
                 rv = getattr(world.app, name)(instance_uuid=world.id)
@@ -1149,6 +1203,8 @@ def facts_from_programs(P):
     f["streamUnlocksOnDone"] = not P["stream_complete"]["locked_at_end"]
     f["unlockOnError"] = not P["runSteps2_error"]["locked_at_end"] and not P["stream_error"]["locked_at_end"]
     f["unlockOnClientGone"] = not P["stream_gone2"]["locked_at_end"]
+    inv = [o for o in P.values() if o["opt"].get("invalid")]
+    f["_invalidRequestHoldsNothing"] = all(not o["locked_at_end"] and not any(l in ("RS", "SIM", "WS") for l in o["labels"]) for o in inv)
     f["refusalKeepsLock"] = all("CL" not in P[n]["labels"] for n in
                                 ("runStep_refused", "runSteps_refusedAtTest", "runSteps_refusedAtAcquire", "stream_refused")
                                 if P[n]["status"] == 500 and "SL" not in P[n]["labels"])
@@ -1164,6 +1220,8 @@ def program_obligations(progs, facts):
     req = [cfgline]
     meta = []
     for o in progs:
+        if o["opt"].get("invalid"):
+            continue
         sched, other = program_schedule(o["opt"], o["labels"])
         kinds = [("r", o["n"]) if o["kind"] == "r" else (o["kind"], 0)] + ([("r", 1)] if other else [])
         ks = ",".join(k if k != "r" else f"r{n}" for k, n in kinds)
@@ -1457,7 +1515,7 @@ def clock_events(r):
             ev.append(f"r{t}")
         elif lab == "WS":
             ev.append(f"w{t}")
-            real.append((epoch, int(round(info)) - 1))
+            real.append((epoch, idx(info) - 1))
     for i, l in enumerate(log):
         if not injected and i >= r["at"]:
             if early is not None:
@@ -1632,6 +1690,192 @@ def shape_obligations(shape, facts, progs):
     return {"lean": lean, "safe": safe, "agree": agree, "pred": pred, "dynamic": dyn}
 
 
+# ------------------------------------------------------------------------------------------- request bodies, adapter (wave 7)
+BODY_SHAPES = [
+    # name, endpoint, body (None = no JSON body), what the statement expects: "steps" | "nothing"
+    ("run-step no body", "run-step", None, "steps"),
+    ("run-step {} (no settings)", "run-step", {}, "nothing"),
+    ("run-step flatResults", "run-step", {"settings": {}, "flatResults": True}, "steps"),
+    ("run-step settings with values", "run-step", {"settings": {SM: {SC: {"constants": {"constant": 2.0}}}}}, "steps"),
+    ("run-steps no body", "run-steps", None, "nothing"),
+    ("run-steps {} (no numberSteps)", "run-steps", {}, "nothing"),
+    ("run-steps no settings", "run-steps", {"numberSteps": 2}, "nothing"),
+    ("run-steps numberSteps '2' (text)", "run-steps", {"numberSteps": "2", "settings": {}}, "nothing"),
+    ("run-steps numberSteps 2.5", "run-steps", {"numberSteps": 2.5, "settings": {}}, "nothing"),
+    ("run-steps numberSteps -1", "run-steps", {"numberSteps": -1, "settings": {}}, "nothing"),
+    ("run-steps numberSteps 0", "run-steps", {"numberSteps": 0, "settings": {}}, "nothing"),
+    ("run-steps numberSteps null", "run-steps", {"numberSteps": None, "settings": {}}, "nothing"),
+    ("run-steps numberSteps 7 > steps left", "run-steps", {"numberSteps": 7, "settings": {}}, "steps"),
+    ("run-steps flatResults", "run-steps", {"numberSteps": 2, "settings": {}, "flatResults": True}, "steps"),
+    ("stream-steps no body", "stream-steps", None, "steps"),
+    ("stream-steps {} (no settings)", "stream-steps", {}, "nothing"),
+    ("stream-steps flatResults", "stream-steps", {"settings": {}, "flatResults": True}, "steps"),
+]
+
+
+def _times_in(text):
+    import re
+    try:
+        obj = json.loads(text)
+    except Exception:                                         # noqa: BLE001
+        return None
+    out = []
+
+    def walk(o):
+        if isinstance(o, dict):
+            if SM in o and isinstance(o[SM], dict):
+                t = time_of(o) if SC in o[SM] and isinstance(o[SM][SC], dict) and o[SM][SC] and \
+                    isinstance(next(iter(o[SM][SC].values())), dict) else None
+                if t is None:                                  # flat results carry no time: counted, not placed
+                    out.append(None)
+                else:
+                    out.append(t)
+        elif isinstance(o, list):
+            for x in o:
+                walk(x)
+    walk(obj)
+    return out
+
+
+def body_shapes(world):
+    """every handler with every body shape the code distinguishes, (a) on a free instance, (b) while the lock is held by
+    somebody else; afterwards: flag, clock, follow-up.  Returns (findings, counts)."""
+    out, counts = [], {}
+    for held in (False, True):
+        for name, ep, body, expect in BODY_SHAPES:
+            world.reset(3)
+            world.flag_force(held)
+            c0 = world.clock()
+            kw = {"json": body} if body is not None else {}
+            try:
+                r = world.client.post(f"/{world.id}/{ep}", **kw)
+                status, text = r.status_code, r.data.decode()
+            except Exception as e:                             # noqa: BLE001
+                status, text = None, f"{type(e).__name__}: {e}"
+            c1 = world.clock()
+            flag = world.flag_raw()
+            ans = world.is_locked_now()
+            counts[("held: " if held else "free: ") + name] = 1
+            what = f"{ep} with body {json.dumps(body) if body is not None else '(none)'}"
+            if held:
+                if not flag:
+                    out.append(("refusal-releases-lock", f"{what} arrived while another request holds the lock, was answered {status} and cleared the lock"))
+                if c1 != c0:
+                    out.append(("lock-check-then-act", f"{what} arrived while another request holds the lock (answered {status}) and advanced the clock from {c0} to {c1}"))
+                world.flag_force(False)
+                continue
+            if flag or ans:
+                key = "invalid-request-leaves-lock" if (expect == "nothing" or (status or 500) >= 400) else "lock-leak"
+                out.append((key, f"{what} was answered {status} {text[:60]!r}; the request has ended but the instance is still locked"))
+                world.flag_force(False)
+                continue
+            times = _times_in(text) if status == 200 else []
+            n = len(times or [])
+            if expect == "nothing" and (c1 != c0):
+                out.append(("clock-mismatch", f"{what} was answered {status} and advanced the clock from {c0} to {c1}"))
+            if expect == "steps":
+                placed = [t for t in (times or []) if t is not None]
+                if status != 200 or c1 - c0 != n or (placed and placed != list(range(c0, c0 + len(placed)))):
+                    out.append(("clock-mismatch" if status == 200 else "lock-leak",
+                                f"{what} on a free instance at clock {c0}: answered {status} with steps {times}, clock afterwards {c1}"))
+            f = world.client.post(f"/{world.id}/run-step", json={"settings": {}})
+            if f.status_code != 200:
+                out.append(("invalid-request-leaves-lock" if expect == "nothing" else "lock-leak",
+                            f"after {what} (answered {status}) a follow-up run-step is answered {f.status_code} {f.data.decode()[:50]}"))
+    return out, counts
+
+
+class RaisingAdapter:
+    """external state adapter whose save fails (the callback every handler runs after its steps)"""
+    def __init__(self):
+        self.calls = []
+
+    def save_instance(self, state):
+        self.calls.append("save")
+        raise RuntimeError("injected adapter failure")
+
+    def load_instance(self, uuid):
+        return None
+
+    def delete_instance(self, uuid):
+        pass
+
+    def save_state(self, *a, **kw):
+        pass
+
+    def load_state(self, *a, **kw):
+        return []
+
+
+def adapter_runs(world):
+    """each handler (and a stream whose client goes away / whose step fails) with an adapter whose save raises: whatever the
+    answer is, the lock must be free afterwards and a follow-up step must be accepted"""
+    out, counts = [], {}
+    prev = world.app._external_state_adapter
+    try:
+        for kind, n, stop, fail, gone in (("p", 0, 3, {}, {}), ("r", 2, 3, {}, {}), ("s", 0, 1, {}, {}), ("s", 0, 2, {0: 1}, {}),
+                                          ("s", 0, 1, {}, {0: 2}), ("r", 2, 3, {0: 1}, {})):
+            scn = Scn(stop, [(kind, n)], fail=fail, gone=gone)
+            world.app._external_state_adapter = RaisingAdapter()
+            world.followups = False
+            try:
+                rec = execute(world, scn, "action")
+                err = None
+            except Exception as e:                               # noqa: BLE001
+                rec, err = None, f"{type(e).__name__}: {e}"
+            finally:
+                world.followups = True
+            saves = len(world.app._external_state_adapter.calls)
+            world.app._external_state_adapter = prev
+            locked = world.flag_raw() or world.is_locked_now()
+            f = world.client.post(f"/{world.id}/run-step", json={"settings": {}})
+            counts[f"adapter save raises: {scn.kinds_str()} fail={fail} gone={gone}"] = 1
+            if locked or f.status_code != 200:
+                out.append(("lock-leak", f"{scn.kinds_str()} (fail={fail}, gone={gone}) with an external state adapter whose save_instance raises "
+                            f"({saves} call(s)): afterwards locked={bool(locked)}, follow-up run-step {f.status_code} {f.data.decode()[:50]}"
+                            + (f"; harness: {err}" if err else "")))
+                world.flag_force(False)
+    finally:
+        world.app._external_state_adapter = prev
+        world.followups = True
+    return out, counts
+
+
+# ------------------------------------------------------------------------------------------- another time grid (wave 7)
+def grid_runs(chk, facts):
+    """the same handlers on a session whose grid is not the integers: start 2.0, dt 0.25 (time = 2.0 + 0.25 * step).  A second
+    server + instance; the probes' solo/forced runs and a small exploration, judged by the same reference check and compared
+    with the same model (which counts steps)."""
+    old = dict(GRID)
+    GRID.update(start=2.0, dt=0.25)
+    found, diff, n = {}, None, 0
+    w2 = World()
+    try:
+        f2 = probe(w2)
+        cases = list(f2["_runs"])
+        for scn in (Scn(1, [("r", 2), ("s", 0)]), Scn(1, [("p", 0), ("r", 2)]), Scn(1, [("s", 0), ("p", 0)], gone={0: 2}),
+                    Scn(2, [("r", 2), ("r", 2)], fail={0: 1}), Scn(1, [("r", 3), ("s", 0)])):
+            for rec in explore(w2, scn, 1 if chk.quick else 2, 150 if chk.quick else 2000):
+                cases.append((scn, rec))
+        req = ["cfg " + " ".join("1" if f2[k] else "0" for k in FACTS)] + [model_line(scn, rec)[0] for scn, rec in cases]
+        replies = drive("C18", req)
+        for i, (scn, rec) in enumerate(cases):
+            n += 1
+            chk.case(("grid", scn.key(), tuple(model_schedule(scn, rec)[0])), nontrivial=True)
+            for key, text in reference(scn, rec):
+                if key not in found:
+                    found[key] = (scn, rec, text)
+            d = compare(scn, rec, replies[i + 1])
+            if d is not None and diff is None:
+                diff = (scn, rec, d)
+        same = {k: f2[k] for k in FACTS} == {k: facts[k] for k in FACTS}
+    finally:
+        w2.close()
+        GRID.clear()
+        GRID.update(old)
+    return found, diff, n, same
+
+
 # ------------------------------------------------------------------------------------------- probes
 def probe(world):
     """mechanism facts of the handlers, by sequential/forced runs with the recorder."""
@@ -1698,7 +1942,7 @@ def gen_sessions(sf):
     return t, mutex_ok, leak_free
 
 
-def gen_lean(f, progs=(), sf=None, shape=None):
+def gen_lean(f, progs=(), sf=None, shape=None, invalid_ok=True):
     b = lambda x: "true" if x else "false"
     cfg = ", ".join(f"{k} := {b(f[k])}" for k in FACTS)
     body = ""
@@ -1726,6 +1970,11 @@ def gen_lean(f, progs=(), sf=None, shape=None):
         body += gen_sessions(sf)[0]
     if shape is not None:
         body += shape["lean"]
+    if not invalid_ok:
+        x = "true" if (sf or {}).get("sessionReqExcluded") else "false"
+        body += ("/-! a request that fails validation keeps the lock: every later step request is refused -/\n"
+                 f"theorem blocked_after_invalid_request : (Sess.strace ⟨true, false, false, {x}⟩ ([.acq 0] ++ [] ++ [.acq 1]) (Sess.SState.init true 2)).2.getLast? "
+                 f"= some \"refused\" := Sess.C18_witness_acquire_without_end {x} true [] (Or.inl rfl)\n#print axioms blocked_after_invalid_request\n")
     if progs:
         body += "/-! thread programs: the accesses recorded from each handler run alone against the recording stub -/\n"
         for o in progs:
@@ -1766,7 +2015,13 @@ def _run(chk, world):
     shape = shape_obligations(shp, facts, progs) if shp else None
     chk.notes["streamer_shape"] = {"tokens": " ".join(f"{t}@{ln}" for t, ln in shp) if shp else None,
                                    "close_safe": shape and shape["safe"], "close_at_traced_yields": shape and shape["dynamic"]}
-    ok, why = chk.prove(gen_lean(facts, obls, sfacts, shape))
+    _tb = _t.time()
+    bfind, bcounts = body_shapes(world)
+    afind, acounts = adapter_runs(world)
+    chk.notes["body_adapter_wall_s"] = round(_t.time() - _tb, 1)
+    invalid_ok = stub_facts["_invalidRequestHoldsNothing"] and not any(k == "invalid-request-leaves-lock" for k, _ in bfind)
+    chk.notes["invalidRequestHoldsNothing"] = invalid_ok
+    ok, why = chk.prove(gen_lean(facts, obls, sfacts, shape, invalid_ok))
     chk.cov["trusted_base"] = [
         "Lean 4.33 kernel; axioms propext, Classical.choice, Quot.sound (audited per run via #print axioms)",
         "thread programs of lean/Bptk/Core/C18.lean (run-step / run-steps / stream-steps handlers, bptk.run_step, lock/unlock/is_locked/try_lock) at the granularity of accesses to the lock flag, the session clock, the simulation call and the chunks handed to the client; tied to /repo by the six probed mechanism facts, by the per-run obligations prog_* (the accesses recorded from each handler run alone under sys.settrace against a recording stub — completion, error, client-gone, refusal and stop-time paths — equal the model's program, decided in the kernel) and by the label-by-label and outcome comparison of every forced schedule",
@@ -1858,7 +2113,10 @@ def _run(chk, world):
             nline += 1
         dist[f"line-level {scn.kinds_str()}: line steps of the serial run"] = total
     # session lifecycle: a session request at every action boundary of a stream / a run-steps, all endings, liveness probe
+    _ts = _t.time()
+    chk.notes["explore_before_sessions_wall_s"] = round(_ts - t0, 1)
     sruns = list(session_runs(world, chk.quick, rng))
+    chk.notes["session_runs_wall_s"] = round(_t.time() - _ts, 1)
     sfound, sdiff = {}, None
     cfg4 = " ".join("1" if sfacts[k] else "0" for k in SFACTS)
     sreq_lines, smeta = [], []
@@ -1915,6 +2173,33 @@ def _run(chk, world):
          "then a run-step, then the liveness probe"] = len(sruns)
     chk.cov["session_runs"] = {"runs": len(sruns), "judged_violating": nviol, "errors": sum(1 for r in sruns if "error" in r)}
     chk.cov["traces_validated_against_impl_sessions"] = len(smeta)
+    gfound, gdiff, gn, gsame = grid_runs(chk, facts)
+    dist["second time grid (start 2.0, dt 0.25): probes' runs + 5 scenarios with <= 1 (quick) / 2 pre-emptions"] = gn
+    chk.cov["followup_requests_after_runs"] = getattr(world, "nfollow", 0)
+    rc = {"mode action": 0, "mode line": 0, "requests 1": 0, "requests 2": 0, "requests 3": 0, "ending: injected failure": 0,
+          "ending: client gone": 0, "a request refused": 0, "stop time reached inside a request": 0}
+    for scn, rec, mode in cases:
+        rc["mode " + mode] += 1
+        rc[f"requests {len(scn.kinds)}"] = rc.get(f"requests {len(scn.kinds)}", 0) + 1
+        rc["ending: injected failure"] += 1 if scn.fail else 0
+        rc["ending: client gone"] += 1 if scn.gone else 0
+        rc["a request refused"] += 1 if any(o["status"] == 500 and "locked" in o["body"] for o in rec["out"]) else 0
+        rc["stop time reached inside a request"] += 1 if any(o["msgs"] for o in rec["out"]) else 0
+        for k, nn in scn.kinds:
+            key = {"p": "kind run-step", "s": "kind stream-steps"}.get(k, f"kind run-steps numberSteps={nn}")
+            rc[key] = rc.get(key, 0) + 1
+        rc[f"stop step {scn.stop}"] = rc.get(f"stop step {scn.stop}", 0) + 1
+    rc["afterwards: is_locked() and results log read"] = len(cases)
+    rc["afterwards: follow-up run-step"] = getattr(world, "nfollow", 0)
+    rc["traced handler paths (stub)"] = len(progs)
+    rc["body shapes x {free, held}"] = len(bcounts)
+    rc["adapter whose save raises"] = len(acounts)
+    rc["second time grid"] = gn
+    rc["session runs"] = len(sruns)
+    chk.cov["row_counts"] = rc
+    rows = dict(bcounts)
+    rows.update(acounts)
+    chk.cov["body_and_adapter_rows"] = rows
     chk.cov["input_distribution"] = dist
     chk.cov["line_level_runs"] = nline
     chk.cov["refusal_sandwiches_realised"] = realised
@@ -1962,6 +2247,32 @@ def _run(chk, world):
         if probe_keys[k] not in found:
             chk.add_finding(probe_keys[k], f"probe {k} = false but no schedule explored exhibits the violation",
                             {"probe": k, "solo_labels": facts["_solo_labels"]}, found_input=False)
+    for key, (scn, rec, text) in gfound.items():
+        if key not in found:
+            found[key] = None
+            chk.add_finding(key, f"on the time grid start 2.0 dt 0.25: {scn.kinds_str()} (stop step {scn.stop}): {text}",
+                            dict(replay_of(scn, rec, "action", text), grid={"start": 2.0, "dt": 0.25}))
+    if (gdiff is not None or not gsame) and not (found or sfound):
+        chk.add_finding("correspondence", f"time grid start 2.0 dt 0.25: " + (f"model and implementation disagree on {gdiff[0].kinds_str()}: {gdiff[2]}" if gdiff
+                        else "the probed mechanism facts differ from those on the integer grid"),
+                        dict(replay_of(gdiff[0], gdiff[1], "action", gdiff[2]), grid={"start": 2.0, "dt": 0.25}) if gdiff else {}, found_input=False)
+    seen = set(found) | set(sfound)
+    if afind and any(not facts[k] for k in RELEASE_FACTS):
+        chk.notes["adapter_runs_under_violation"] = [t for _, t in afind]    # the request leaks without the adapter as well
+        afind = []
+    for src, lst in (("body_shapes", bfind), ("adapter", afind)):
+        for key, text in lst:
+            if key not in seen:
+                seen.add(key)
+                chk.add_finding(key, text, {"rerun": src, "observed": text})
+    if not invalid_ok and "invalid-request-leaves-lock" not in seen:
+        bad = [o["name"] for o in progs if o["opt"].get("invalid") and (o["locked_at_end"] or any(l in ("RS", "SIM", "WS") for l in o["labels"]))]
+        chk.add_finding("invalid-request-leaves-lock", f"traced handler paths with a body that fails validation hold the lock afterwards or step: {bad}",
+                        {"paths": bad}, found_input=False)
+    if getattr(world, "recorder_blind", False) and not (found or sfound):
+        chk.add_finding("correspondence", "lock() changes what is_locked() answers, but neither a bool attribute of the instance nor "
+                        "session_state[\"lock\"] changes: the recorder cannot sit on the flag (class-level or otherwise hidden state)",
+                        {"flag": "not found"}, found_input=False)
     smutex_ok, sleak_free = gen_sessions(sfacts)[1:]
     base_of = {"gone": ("unlockOnClientGone", "client-gone-leaves-lock"), "error": ("unlockOnError", "error-leaves-lock"),
                "complete": ("streamUnlocksOnDone", "stream-completion-leaves-lock")}
@@ -2039,6 +2350,15 @@ def replay_of(scn, rec, mode, text):
 def replay(path):
     quiet_bptk_logging()
     r = json.load(open(path))["replay"]
+    if r.get("rerun") in ("body_shapes", "adapter"):
+        world = World()
+        try:
+            probe_sessions(world)
+            v = (body_shapes if r["rerun"] == "body_shapes" else adapter_runs)(world)[0]
+        finally:
+            world.close()
+        print("violations on the current tree:", v)
+        return 1 if v else 0
     if "session_run" in r:
         q = r["session_run"]
         world = World()
@@ -2059,6 +2379,8 @@ def replay(path):
         print("nothing to replay (no concrete schedule stored):", r)
         return 1
     scn = Scn(r["scenario"]["stop"], r["scenario"]["kinds"], r["scenario"]["fail"], r["scenario"]["gone"])
+    if r.get("grid"):
+        GRID.update(r["grid"])
     world = World()
     try:
         if r["mode"] == "action":
